@@ -1,10 +1,152 @@
-import PonyVerif.Model.PyPrint
+/-
+  C04 — outer-scope expressions inside a query are evaluated exactly as Python would; regenerating source text from an
+  expression tree and compiling it again never changes its meaning.
+
+  Property theorems only.  Model: `Model/PyPrint.lean` (PythonTranslator as written: `prE`/`toks`, `codePrio`; the
+  reference parser `pE`/`parseFuel` of the Python expression grammar).  Proof: `Lemmas/PyPrint*.lean`.
+-/
+import PonyVerif.Lemmas.PyPrint6
 namespace PonyVerif.Props.C04
 open PonyVerif.Model.PyPrint
 
-theorem C04_strip_append (a b : List Piece) : strip (a ++ b) = strip a ++ strip b := by
-  induction a with
-  | nil => rfl
-  | cons p t ih => cases p <;> simp [strip, ih]
+/-! ### the text means the tree -/
+
+/-- For EVERY expression of the modelled grammar (boolean operators, `not`, comparison chains incl. `in`/`is`, all binary
+    operators, unary sign, power, conditional expression, lambda with defaults / *args / **kwargs, attribute, call with
+    positional / starred / keyword / double-starred arguments, subscripts with slices and tuples, list / tuple / dict
+    displays, folded negative constants, f-strings as atoms) that satisfies `Ok` (a starred element of a list or tuple
+    display is a `bitwise_or`; displays hold no keyword items; a tuple subscript is not empty), and for every fuel from
+    `cost e + 20` on: tokenising the text `PythonTranslator` writes and parsing it with the Python grammar gives back
+    the expression (`norm`: a folded negative constant reads back as unary minus, an f-string as one atom). -/
+theorem C04_roundtrip (e : Expr) (h : Ok e) (fuel : Nat) (hf : cost e + 20 ≤ fuel) :
+    parseFuel fuel (toks e) = some (norm e) :=
+  roundtrip e h fuel hf
+
+/-- same, in a context: at every grammar level that admits the priority the code assigns, followed by any token that
+    does not continue an expression of that level, the parser consumes exactly the printed expression -/
+theorem C04_roundtrip_in_context (e : Expr) (h : Ok e) (lvl : Nat) (rest : List Tok) (fuel : Nat)
+    (hl : codePrio e ≤ lvl) (h2 : 2 ≤ lvl) (h16 : lvl ≤ 16) (hs : Stops lvl rest) (hf : cost e + 20 ≤ fuel) :
+    pE fuel lvl (toks e ++ rest) = some (norm e, rest) :=
+  (goals_expr e h).2 lvl rest fuel hl h2 h16 hs hf
+
+/-- hypotheses are satisfiable on the expressions the property names: `x == (a if c else b) + 1` -/
+example : Ok (.compare (.name "x") .eq (.bin .add (.ifExp (.name "a") (.name "c") (.name "b")) (.const "1")) .nil) := by
+  simp [Ok, OkCmp]
+/-- `(-1) ** y` with the folded constant, `d[k,]`, `f(*a, k=b)`, `[*a, b]` -/
+example : Ok (.bin .pow (.negConst "1") (.name "y")) := by simp [Ok]
+example : Ok (.subscriptT (.name "d") (.cons (.ie (.name "k")) .nil)) := by simp [Ok, OkIdxs, OkIdx, Idxs.isNil]
+example : Ok (.call (.name "f") (.star (.name "a") (.kw "k" (.name "b") .nil))) := by simp [Ok, OkArgs]
+example : Ok (.list (.star (.name "a") (.pos (.name "b") .nil))) := by simp [Ok, OkItems, codePrio]
+
+/-- the unguarded statement -/
+def C04_roundtrip_full : Prop :=
+  ∀ (e : Expr) (fuel : Nat), cost e + 20 ≤ fuel → parseFuel fuel (toks e) = some (norm e)
+
+/-- the text written for `[*(a or b)]` is `[*a or b]`, which the grammar rejects (`'*' bitwise_or` in a display):
+    a loud SyntaxError at re-compilation, not a changed meaning; replayed on the real code on every run -/
+def starWitness : Expr := .list (.star (.boolOp true (.name "a") (.name "b") .nil) .nil)
+
+theorem C04_roundtrip_full_false : ¬ C04_roundtrip_full := by
+  intro h
+  have h1 := h starWitness 402 (by simp [starWitness, cost, costArgs, costEs])
+  have h2 : toks starWitness = [.lbrk, .bin .mult, .name "a", .kOr, .name "b", .rbrk] := by
+    simp [starWitness, toks, prE, prArgs, prEs, codePrio, strip]
+  rw [h2] at h1
+  revert h1
+  simp [parseFuel, pE.eq_def, pItems.eq_def, pPost.eq_def, pBin.eq_def]
+
+/-- what the property needs without any guard — printed text that compiles at all compiles to the same tree.
+    Not proved (it needs the converse direction of the parser: rejection of every text outside `Ok`); on the real code
+    it is what oracle (2) checks with CPython's own parser on every run. -/
+def C04_no_changed_meaning_full : Prop :=
+  ∀ (e : Expr) (fuel : Nat) (x : Expr), parseFuel fuel (toks e) = some x → x = norm e
+
+/-! ### every child is parenthesised whenever Python's grammar requires it -/
+
+/-- positions of a child whose text the code may wrap in parentheses -/
+inductive Pos
+  | boolOperand (isOr : Bool) | notOperand | cmpOperand | binLeft (op : BinOp) | binRight (op : BinOp) | unaryOperand
+  | ifBody | ifTest | ifElse | lambdaBody | primaryOperand
+
+/-- the highest level the Python grammar admits there (reference grammar: disjunction 14, conjunction 13, inversion 12,
+    comparison 11, bitwise_or 10 … term 5, factor 4, power 3, primary 2; `expression` 16) -/
+def Pos.grammarMax : Pos → Nat
+  | .boolOperand true => 13 | .boolOperand false => 12
+  | .notOperand => 12 | .cmpOperand => 10
+  | .binLeft .pow => 2 | .binRight .pow => 4
+  | .binLeft op => op.prio | .binRight op => op.prio - 1
+  | .unaryOperand => 4
+  | .ifBody => 14 | .ifTest => 14 | .ifElse => 16 | .lambdaBody => 16
+  | .primaryOperand => 2
+
+/-- what the code does there: the decorator's `child.priority >= p`, or `primary_src`'s `priority > 2` -/
+def Pos.printed (pos : Pos) (c : Expr) : List Tok :=
+  match pos with
+  | .boolOperand isOr => wrapT (if isOr then 14 else 13) c
+  | .notOperand => wrapT 12 c
+  | .cmpOperand => wrapT 11 c
+  | .binLeft op => wrapT op.prio c
+  | .binRight op => wrapT op.prio c
+  | .unaryOperand => wrapT 4 c
+  | .ifBody => wrapT 15 c | .ifTest => wrapT 15 c | .ifElse => wrapT 15 c
+  | .lambdaBody => wrapT 16 c
+  | .primaryOperand => primT c
+
+/-- at every position, for every child: if its priority is above what the grammar admits there, the code writes it in
+    parentheses -/
+theorem C04_parens (pos : Pos) (c : Expr) (h : pos.grammarMax < codePrio c) :
+    pos.printed c = .lpar :: (toks c ++ [.rpar]) := by
+  have h16 := codePrio_le c
+  cases pos with
+  | boolOperand o => cases o <;> simp_all [Pos.printed, Pos.grammarMax, wrapT] <;> omega
+  | binLeft op => cases op <;> simp_all [Pos.printed, Pos.grammarMax, wrapT, BinOp.prio] <;> omega
+  | binRight op => cases op <;> simp_all [Pos.printed, Pos.grammarMax, wrapT, BinOp.prio] <;> omega
+  | primaryOperand => simp_all [Pos.printed, Pos.grammarMax, primT]
+  | _ => simp_all [Pos.printed, Pos.grammarMax, wrapT] <;> omega
+
+/-- the printed form of every node that has such positions is built from `Pos.printed` of its children -/
+theorem C04_shape_boolOp (o : Bool) (a b : Expr) :
+    toks (.boolOp o a b .nil) = (Pos.boolOperand o).printed a ++ (if o then Tok.kOr else Tok.kAnd) :: (Pos.boolOperand o).printed b := by
+  simp [toks_boolOp, Pos.printed, tEs_nil]
+theorem C04_shape_not (e : Expr) : toks (.not e) = .kNot :: Pos.notOperand.printed e := by
+  simp [toks_not, Pos.printed]
+theorem C04_shape_compare (l : Expr) (op : CmpOp) (r : Expr) :
+    toks (.compare l op r .nil) = Pos.cmpOperand.printed l ++ .cmp op :: Pos.cmpOperand.printed r := by
+  simp [toks_compare, Pos.printed, tCmp_nil]
+theorem C04_shape_bin (op : BinOp) (l r : Expr) :
+    toks (.bin op l r) = (Pos.binLeft op).printed l ++ .bin op :: (Pos.binRight op).printed r := by
+  simp [toks_bin, Pos.printed]
+theorem C04_shape_unary (op : UnOp) (e : Expr) : toks (.unary op e) = op.tok :: Pos.unaryOperand.printed e := by
+  simp [toks_unary, Pos.printed]
+theorem C04_shape_ifExp (b t o : Expr) :
+    toks (.ifExp b t o) = Pos.ifBody.printed b ++ .kIf :: (Pos.ifTest.printed t ++ .kElse :: Pos.ifElse.printed o) := by
+  simp [toks_ifExp, Pos.printed]
+theorem C04_shape_lambda (ps : Params) (b : Expr) :
+    toks (.lambda ps b) = .kLambda :: (tParams ps ++ .colon :: Pos.lambdaBody.printed b) := by
+  simp [toks_lambda, Pos.printed]
+theorem C04_shape_attr (e : Expr) (a : String) : toks (.attr e a) = Pos.primaryOperand.printed e ++ [.dot, .name a] := by
+  simp [toks_attr, Pos.printed]
+theorem C04_shape_call (f : Expr) (a : Args) :
+    toks (.call f a) = Pos.primaryOperand.printed f ++ .lpar :: (tArgs a ++ [.rpar]) := by
+  simp [toks_call, Pos.printed]
+theorem C04_shape_subscript (e : Expr) (i : Idx) :
+    toks (.subscript e i) = Pos.primaryOperand.printed e ++ .lbrk :: (tIdx i ++ [.rbrk]) := by
+  simp [toks_subscript, Pos.printed]
+
+/-- the two defects this check found in the printer and that are fixed in /repo, as theorems about the code as it is now:
+    a folded negative constant under `**` and under a trailer is parenthesised; `d[k,]` keeps its comma -/
+theorem C04_negative_constant_pow (s : String) (y : Expr) (hy : codePrio y < 3) :
+    toks (.bin .pow (.negConst s) y) = [.lpar, .bin .sub, .const s, .rpar, .bin .pow] ++ toks y := by
+  have h1 : codePrio (.negConst s) ≥ 3 := by simp [codePrio]
+  have h2 : ¬ codePrio y ≥ 3 := by omega
+  rw [toks_bin]
+  simp only [wrapT, BinOp.prio, h1, h2, if_true, if_false, toks_negConst]
+  simp
+theorem C04_negative_constant_attr (s a : String) :
+    toks (.attr (.negConst s) a) = [.lpar, .bin .sub, .const s, .rpar, .dot, .name a] := by
+  simp [toks_attr, primT, codePrio, toks_negConst]
+theorem C04_one_tuple_subscript (d k : String) :
+    toks (.subscriptT (.name d) (.cons (.ie (.name k)) .nil)) = [.name d, .lbrk, .name k, .comma, .rbrk] := by
+  simp [toks_subscriptT_cons, primT, codePrio, toks_name, tIdx_ie, tIdxs_nil]
 
 end PonyVerif.Props.C04
